@@ -134,10 +134,22 @@ func channels() string {
 	b, ok := <-free
 	anyc <- nil
 	x := <-anyc
+	var got *job
+	select {
+	case got = <-free:
+		got.n = 7
+	default:
+		got = &job{n: 9}
+	}
+	select {
+	case free <- got:
+	default:
+	}
+	got = <-free
 	close(done)
 	<-done
 	_, open := <-done
-	return fmt.Sprint(a.n, b.n, ok, x, open, len(free))
+	return fmt.Sprint(a.n, b.n, ok, x, open, len(free), got.n)
 }
 
 // Run exercises everything and returns a transcript.
